@@ -558,6 +558,15 @@ impl PoolMap {
         (ancestors, parents, cell_ref_parents)
     }
 
+    // the pooled transactions creating the cells which are consumed or referred by `tx`
+    fn get_tx_out_point_parents(&self, tx: &TransactionView) -> HashSet<ProposalShortId> {
+        tx.input_pts_iter()
+            .chain(tx.cell_deps_iter().map(|cell_dep| cell_dep.out_point()))
+            .map(|out_point| ProposalShortId::from_tx_hash(&out_point.tx_hash()))
+            .filter(|id| self.links.inner.contains_key(id))
+            .collect()
+    }
+
     fn _record_ancestors(
         &mut self,
         entry: &mut TxEntry,
@@ -595,7 +604,7 @@ impl PoolMap {
         entry: &mut TxEntry,
     ) -> Result<HashSet<TxEntry>, Reject> {
         let tx = entry.transaction();
-        let (ancestors, mut parents, cell_ref_parents) = self.get_tx_ancenstors(tx);
+        let (ancestors, mut parents, mut cell_ref_parents) = self.get_tx_ancenstors(tx);
 
         let mut ancestors_count = ancestors.len() + 1;
         let mut evicted = Default::default();
@@ -604,6 +613,13 @@ impl PoolMap {
             self._record_ancestors(entry, ancestors, parents);
             return Ok(evicted);
         }
+
+        // The pooled transactions creating the cells which are consumed or referred by this one,
+        // and their ancestors, can not be evicted: this one can not be resolved without them.
+        let required = self
+            .links
+            .calc_relation_ids(self.get_tx_out_point_parents(tx), Relation::Parents);
+        cell_ref_parents.retain(|id| !required.contains(id));
 
         if ancestors_count.saturating_sub(cell_ref_parents.len()) <= self.max_ancestors_count {
             // if ancestors count exceed limitation,
@@ -620,9 +636,15 @@ impl PoolMap {
             let mut iter = evict_candidates.iter();
             while ancestors_count > self.max_ancestors_count {
                 if let Some(next_id) = iter.next() {
+                    // nothing is removed if it is a descendant of an evicted one
                     let removed = self.remove_entry_and_descendants(next_id);
-                    ancestors_count = ancestors_count.saturating_sub(1);
-                    parents.remove(next_id);
+                    for id in removed.iter().map(|entry| entry.proposal_short_id()) {
+                        // its descendants may be ancestors, and even parents, as well
+                        if ancestors.contains(&id) {
+                            ancestors_count = ancestors_count.saturating_sub(1);
+                        }
+                        parents.remove(&id);
+                    }
                     evicted.extend(removed);
                 } else {
                     break;
